@@ -81,31 +81,31 @@ type Machine struct {
 	frozenInited  map[*ssa.Package]bool
 
 	// ---- per path ----
-	harness   string
-	pc        []*Term
-	pcSet     map[int]bool
-	model     Model
-	ev        *evaluator
-	prefix    []Decision
-	di        int
-	trace     []Decision
-	globals   map[*ssa.Global]*Value
-	inited    map[*ssa.Package]bool
-	tape      []TapeEntry
-	steps     int
-	varCount  map[string]int
-	reached   map[string]bool
-	spawned   []spawnedGo
-	side      map[interface{}]interface{} // per-path side tables for intrinsics (keyed by cell pointers)
-	out       *PathOutcome
-	newWork   []WorkItem
-	ufCache   map[int]bool
-	curPos    token.Pos
-	depth     int
-	params    map[string]int
-	threads   *sched
-	curThread *thread
-	notes     []string
+	harness      string
+	pc           []*Term
+	pcSet        map[int]bool
+	model        Model
+	ev           *evaluator
+	prefix       []Decision
+	di           int
+	trace        []Decision
+	globals      map[*ssa.Global]*Value
+	inited       map[*ssa.Package]bool
+	tape         []TapeEntry
+	steps        int
+	varCount     map[string]int
+	reached      map[string]bool
+	spawned      []spawnedGo
+	side         map[interface{}]interface{} // per-path side tables for intrinsics (keyed by cell pointers)
+	out          *PathOutcome
+	newWork      []WorkItem
+	ufCache      map[int]bool
+	curPos       token.Pos
+	depth        int
+	params       map[string]int
+	threads      *sched
+	curThread    *thread
+	notes        []string
 	asciiAssumed bool
 	initNotes    []string
 	envVars      []*Term
